@@ -86,14 +86,18 @@ Reverse(s) == [i \in 1..Len(s) |-> s[Len(s) + 1 - i]]
 (* the blocks of the chain are handed, oldest first, to finalizeBlockProcess, *)
 (* which requires the previous round to be finalized with the block's parent  *)
 (* ("could not connect to lfb"); blocks with fewer than `confirm` rounds on   *)
-(* top are skipped.  rfin[q] = block the round q was finalized with.          *)
-RECURSIVE FinBlocks(_, _, _, _, _, _, _)
-FinBlocks(par, rnd, chain, r, confirm, lfb, rfin) ==
+(* top are skipped.  A block that is not marked notarized (known only as a    *)
+(* parent) is first fetched from the network; `fetch` says whether that       *)
+(* succeeds (then it is notarized).  rfin[q] = block round q was finalized    *)
+(* with.                                                                      *)
+RECURSIVE FinBlocks(_, _, _, _, _, _, _, _, _)
+FinBlocks(par, rnd, nota, fetch, chain, r, confirm, lfb, rfin) ==
   IF chain = <<>> THEN <<lfb, rfin>>
   ELSE LET fb == Head(chain) IN
-       IF r - rnd[fb] < confirm THEN FinBlocks(par, rnd, Tail(chain), r, confirm, lfb, rfin)
+       IF r - rnd[fb] < confirm THEN FinBlocks(par, rnd, nota, fetch, Tail(chain), r, confirm, lfb, rfin)
+       ELSE IF fb \notin nota /\ ~fetch THEN <<lfb, rfin>>
        ELSE IF rfin[rnd[fb] - 1] = NoBlock \/ rfin[rnd[fb] - 1] # par[fb] THEN <<lfb, rfin>>
-       ELSE FinBlocks(par, rnd, Tail(chain), r, confirm, fb, [rfin EXCEPT ![rnd[fb]] = fb])
+       ELSE FinBlocks(par, rnd, nota, fetch, Tail(chain), r, confirm, fb, [rfin EXCEPT ![rnd[fb]] = fb])
 
 CommonAnc(par, rnd, b1, b2) ==
   LET S == AncEq(par, b1) \cap AncEq(par, b2) IN
